@@ -287,7 +287,10 @@ def setitem(I, obj, idx, v, env, target):
     if isinstance(obj, Opaque) and getattr(obj, "setitem", None):
         return obj.setitem(I, obj, idx, v)
     if obj.__class__.__name__ == "STable":
-        return            # column assignment: number of rows unchanged
+        # column assignment: number of rows unchanged; recorded in the ghost trace
+        from .libmodels import Event
+        I.ctx.trace.append(Event(obj, "table.setitem", [idx, v], {}, None, getattr(I.ctx, "loop_k", None)))
+        return
     if obj.__class__.__name__ == "SRow":
         obj.items[idx] = v
         return
@@ -1271,3 +1274,94 @@ def arr_append(I, recv, args, kwargs):
         raise Undecided("append on a symbolic list reached through a complex expression")
     _rebind(I, node.func.value, new, I.cur_env, recv)
     return None
+
+
+# ----------------------------------------------------------------------------- C14 additions: np.pad, as_strided
+
+@lib("numpy.pad")
+def np_pad(I, args, kwargs):
+    a = to_arr(I, args[0])
+    pw = arg(args, kwargs, 1, "pad_width")
+    mode = arg(args, kwargs, 2, "mode", "constant")
+    if a.ndim != 1:
+        raise Undecided("np.pad of an n-d array")
+    if isinstance(pw, SList):
+        if len(pw.items) != 2:
+            raise Undecided("np.pad pad_width")
+        before, after = pw.items
+    else:
+        before = after = pw
+    n = a.len
+    ctx = I.ctx
+    for w in (before, after):
+        if not ctx.entails(to_z3(w) >= 0):
+            if ctx.branch(to_z3(w) < 0, "pad-negative"):
+                raise SymRaise(ExcVal(ExtClass("builtins.ValueError"), ()), where="index can't contain negative values")
+    total = pure_arith(I, "Add", pure_arith(I, "Add", before, n), after)
+    if mode == "edge":
+        if not ctx.entails(to_z3(n) >= 1):
+            if ctx.branch(to_z3(n) < 1, "pad-empty"):
+                raise SymRaise(ExcVal(ExtClass("builtins.ValueError"), ()), where="can't extend empty axis using modes other than constant")
+        USED.add("np.pad(a, p, mode='edge')[i] == a[clip(i - p, 0, len(a) - 1)]")
+
+        def fn(i):
+            j = to_z3(i) - to_z3(before)
+            return a.fn(simp(z3.If(j < 0, 0, z3.If(j > to_z3(n) - 1, to_z3(n) - 1, j))))
+        return SArr((total,), fn, a.dtype, "ndarray")
+    if mode == "constant":
+        cv = kwargs.get("constant_values", 0)
+        USED.add("np.pad(a, (p, q), 'constant', constant_values=c)[i] == a[i - p] inside, c outside")
+        return SArr((total,), lambda i: If(And(to_z3(i) >= to_z3(before), to_z3(i) < to_z3(before) + to_z3(n)),
+                                           a.fn(simp(to_z3(i) - to_z3(before))), cv), "real" if (is_reallike(cv) or cv is NAN) else a.dtype, "ndarray")
+    raise Undecided(f"np.pad mode {mode!r}")
+
+
+@lib("numpy.lib.stride_tricks.as_strided")
+def np_as_strided(I, args, kwargs):
+    """as_strided(a, shape=(r, w), strides=(itemsize, itemsize))[t, j] == a[t + j]; reading beyond the buffer is modelled as an
+    error (pseudo-exception OutOfBoundsRead) so that no contract can be satisfied by it"""
+    a = to_arr(I, args[0])
+    shape, strides = kwargs.get("shape"), kwargs.get("strides")
+    if a.ndim != 1 or not isinstance(shape, SList) or len(shape.items) != 2 or not isinstance(strides, SList) or len(strides.items) != 2:
+        raise Undecided("as_strided pattern")
+    it = _itemsize(I)
+    if not all(x is it for x in strides.items):
+        raise Undecided("as_strided with strides other than (itemsize, itemsize)")
+    r, w = shape.items
+    ctx = I.ctx
+    inb = Or(to_z3(r) <= 0, to_z3(w) <= 0, to_z3(r) + to_z3(w) - 2 < to_z3(a.len))
+    if not ctx.entails(inb):
+        if ctx.branch(Not(inb), "as_strided-oob"):
+            raise SymRaise(ExcVal(ExtClass("builtins.OutOfBoundsRead"), ()), where="as_strided view reaches beyond the buffer")
+    USED.add("as_strided(a, (r, w), (itemsize, itemsize))[t, j] == a[t + j]")
+    return SArr((r, w), lambda t, j: a.fn(pure_arith(I, "Add", t, j)), a.dtype, "ndarray")
+
+
+def _itemsize(I):
+    memo = I.ctx.__dict__.setdefault("itemsize_token", None)
+    if memo is None:
+        memo = I.ctx.fresh_int("itemsize")
+        I.ctx.assume(memo >= 1)
+        I.ctx.itemsize_token = memo
+    return memo
+
+
+@lib("numpy.array_split")
+def np_array_split(I, args, kwargs):
+    """np.array_split(a, m) for a concrete number of sections m: the first len(a) % m sections have len(a) // m + 1 elements,
+    the others len(a) // m, in order"""
+    a = to_arr(I, args[0])
+    m = arg(args, kwargs, 1, "indices_or_sections")
+    if a.ndim != 1 or is_sym(m) or not isinstance(m, int):
+        raise Undecided("array_split with symbolic / non-integer sections")
+    if m <= 0:
+        raise SymRaise(ExcVal(ExtClass("builtins.ValueError"), ()), where="number sections must be larger than 0")
+    n = a.len
+    q, r = ops.divmod_int(I.ctx, n, m)
+    USED.add("np.array_split(a, m): first len(a) % m sections have one extra element")
+    out = []
+    for k in range(m):
+        start = simp(k * to_z3(q) + z3.If(to_z3(r) < k, to_z3(r), k))
+        size = simp(to_z3(q) + z3.If(k < to_z3(r), 1, 0))
+        out.append(SArr((size,), (lambda s_: (lambda i: a.fn(simp(to_z3(s_) + to_z3(i)))))(start), a.dtype, "ndarray"))
+    return SList(out, "list")
